@@ -369,3 +369,23 @@ seed('c16-psi-update-after-norm', 'C16', [(ACH, "    return norm < squaredTolera
 seed('c16-n-projected-named-verdict', 'C16', [(PSS, "        if (!constraint_->project(scratch)                  // not on manifold\n            || !(interpolate || svc->isValid(scratch))      // not valid", "        const bool onManifold = constraint_->project(scratch);\n        if (!onManifold                  // not on manifold\n            || !(interpolate || svc->isValid(scratch))      // not valid")], None)
 seed('c16-n-validator-commuted', 'C16', [(CSS, "    return ss_.getConstraint()->isSatisfied(s2) && reached;", "    return reached && ss_.getConstraint()->isSatisfied(s2);")], None)
 seed('c16-n-satisfied-local-square', 'C16', [(CON, "    return f.allFinite() && f.squaredNorm() <= tolerance_ * tolerance_;", "    const double squaredTolerance = tolerance_ * tolerance_;\n    return f.allFinite() && f.squaredNorm() <= squaredTolerance;")], None)
+
+# ---- C20 -------------------------------------------------------------------------------------------------------
+RRTC = 'src/ompl/geometric/planners/rrt/src/RRT.cpp'
+ESTC = 'src/ompl/geometric/planners/est/src/EST.cpp'
+KPH = 'src/ompl/control/planners/kpiece/KPIECE1.h'
+seed('c20-second-entropy-source', 'C20', [(RNGC, "ompl::RNG::RNG(std::uint_fast32_t localSeed)\n  : localSeed_(localSeed), generator_(localSeed_)", "ompl::RNG::RNG(std::uint_fast32_t localSeed)\n  : localSeed_(localSeed), generator_(localSeed_ + std::random_device()())")], 'R20a')
+seed('c20-planner-reseeds-from-clock', 'C20', [(RRTC, "    sampler_.reset();\n", "    sampler_.reset();\n    rng_.setLocalSeed(std::chrono::steady_clock::now().time_since_epoch().count());\n", 0)], 'R20a')
+seed('c20-rng-default-fixed-seed', 'C20', [(RNGC, "  : localSeed_(getRNGSeedGenerator().nextSeed())", "  : localSeed_(getRNGSeedGenerator().firstSeed())")], 'R20b')
+seed('c20-nextseed-no-mark', 'C20', [(RNGC, "            someSeedsGenerated_ = true;\n", "")], 'R20b')
+seed('c20-setseed-always-first', 'C20', [(RNGC, "                else\n                {\n                    // In this case, since no seeds have been generated yet, so we remember this seed as the first one.\n                    firstSeed_ = seed;\n                }", "                firstSeed_ = seed;")], 'R20b')
+seed('c20-setseed-no-lock', 'C20', [(RNGC, "        void setSeed(std::uint_fast32_t seed)\n        {\n            std::lock_guard<std::mutex> slock(rngMutex_);", "        void setSeed(std::uint_fast32_t seed)\n        {")], 'R20b')
+seed('c20-localseed-no-reseed', 'C20', [(RNGC, "    // Change the generator's seed\n    generator_.seed(localSeed_);\n", "")], 'R20b')
+seed('c20-localseed-no-spherical-reset', 'C20', [(RNGC, "    normalDist_.reset();\n    sphericalDataPtr_->reset();", "    normalDist_.reset();")], 'R20b')
+seed('c20-zero-seed-from-clock', 'C20', [(RNGC, "                OMPL_WARN(\"Random generator seed cannot be 0. Using 1 instead.\");\n                seed = 1;", "                OMPL_WARN(\"Random generator seed cannot be 0. Using the clock instead.\");\n                seed = firstSeed_;")], 'R20b')
+seed('c20-rrt-time-budgeted-bias', 'C20', [(RRTC, "    while (!ptc)\n    {\n        /* sample random state (with goal biasing) */", "    const time::point t0 = time::now();\n    while (!ptc)\n    {\n        if (time::seconds(time::now() - t0) > 0.25)\n            goalBias_ = 0.5;\n        /* sample random state (with goal biasing) */")], 'R20c')
+seed('c20-est-inner-timed-ptc', 'C20', [(ESTC, "    while (!ptc)\n    {", "    const base::PlannerTerminationCondition slice = base::timedPlannerTerminationCondition(0.05);\n    while (!ptc && !slice)\n    {", 0)], 'R20c')
+seed('c20-kpiece-importance-uninit', 'C20', [(KPH, "                double importance{0.0};", "                double importance;")], 'R20e')
+# neutral rewrites
+seed('c20-n-rrt-timing-log', 'C20', [(RRTC, "    while (!ptc)\n    {\n        /* sample random state (with goal biasing) */", "    const time::point t0 = time::now();\n    OMPL_DEBUG(\"%s: entering the main loop after %f s\", getName().c_str(), time::seconds(time::now() - t0));\n    while (!ptc)\n    {\n        /* sample random state (with goal biasing) */")], None)
+seed('c20-n-localseed-order', 'C20', [(RNGC, "    uniDist_.reset();\n    normalDist_.reset();\n    sphericalDataPtr_->reset();", "    sphericalDataPtr_->reset();\n    normalDist_.reset();\n    uniDist_.reset();")], None)
